@@ -4,8 +4,10 @@
 -/
 import Upnp.Lemmas.C11Vals
 import Upnp.Lemmas.C09Reg
+set_option linter.unusedSectionVars false
 namespace Upnp.C11
 open Upnp PyDict Upnp.C09 Upnp.C10
+variable [FloatOracle]
 
 /-! ### small list facts -/
 
@@ -43,12 +45,12 @@ theorem modifyAt_id {α : Type} (l : List α) (i : Nat) : modifyAt l i (fun a =>
 /-! ### the invariant -/
 
 /-- every service holds what the NOTIFYs received so far for its granted SID leave, in arrival order -/
-def SvcsInv (decls : List (List Decl)) (js : JS) (svcs : List Svc) : Prop :=
+def SvcsInv (decls : List (List Var)) (js : JS) (svcs : List Svc) : Prop :=
   svcs.length = decls.length ∧
   ∀ i ds s, decls[i]? = some ds → svcs[i]? = some s →
     valsOf s = ideal ds (notifiesFor js i) ∧ s.events.length = (notifiesFor js i).length
 
-structure Inv (decls : List (List Decl)) (s : St) (js : JS) : Prop where
+structure Inv (decls : List (List Var)) (s : St) (js : JS) : Prop where
   pendNodup : (keys s.pending).Nodup
   pend : ∀ i, (get? s.pending i).isSome = js.pend.contains i
   pendStarted : ∀ i ∈ js.pend, i ∈ js.started
@@ -58,16 +60,16 @@ structure Inv (decls : List (List Decl)) (s : St) (js : JS) : Prop where
   rt : ∀ sid, get? s.h.rt sid = (js.granted.find? (·.2 == sid)).map (·.1)
   backlog : ∀ sid, get? s.h.rt sid = none →
     (get? s.h.backlog sid).getD [] = js.seen.filter (fun n => n.hdrs.sid == some sid)
-  seenWF : ∀ n ∈ js.seen, hdrsOk n.hdrs = true ∧ bodyWF n.body = true
+  seenWF : ∀ n ∈ js.seen, hdrsOk n.hdrs = true ∧ bodyWF n.body = true ∧ n.malformed = false
   svcs : SvcsInv decls js s.h.svcs
 
 theorem valsOf_decls (s : Svc) : (valsOf s).map (·.1) = declsOf s := by
   simp [valsOf, declsOf, List.map_map, Function.comp_def]
 
-theorem ideal_decls (ds : List Decl) (N : List Notify) : (ideal ds N).map (·.1) = ds := by
+theorem ideal_decls (ds : List Var) (N : List Notify) : (ideal ds N).map (·.1) = ds.map Var.blank := by
   rw [ideal_eq]; simp [List.map_map, Function.comp_def]
 
-theorem declsOf_of_inv {ds : List Decl} {s : Svc} {N : List Notify} (h : valsOf s = ideal ds N) : declsOf s = ds := by
+theorem declsOf_of_inv {ds : List Var} {s : Svc} {N : List Notify} (h : valsOf s = ideal ds N) : declsOf s = ds.map Var.blank := by
   rw [← valsOf_decls, h, ideal_decls]
 
 theorem hdrsOk_specStatus (h : NHeaders) : hdrsOk h = true ↔ specStatus h = 200 := by
@@ -83,7 +85,7 @@ theorem hdrsOk_sid {h : NHeaders} (hk : hdrsOk h = true) : ∃ s, h.sid = some s
 
 /-- `handle_notify` for a request with valid headers -/
 theorem handleNotify_ok (h : Handler) (n : Notify) (tick : Nat) (hk : hdrsOk n.hdrs = true) (s : Str)
-    (hs : n.hdrs.sid = some s) :
+    (hs : n.hdrs.sid = some s) (hm : n.malformed = false) :
     handleNotify h n tick =
       match get? h.rt s with
       | none => ({ h with backlog := set h.backlog s ((get? h.backlog s).getD [] ++ [n]) }, .status 200)
@@ -91,8 +93,8 @@ theorem handleNotify_ok (h : Handler) (n : Notify) (tick : Nat) (hk : hdrsOk n.h
   have h200 := (hdrsOk_specStatus n.hdrs).mp hk
   have hl := (ladder_spec n.hdrs).1
   rw [if_pos h200] at hl
-  simp only [handleNotify, hl, hs, (ladder_spec n.hdrs).2.1, (ladder_spec n.hdrs).2.2]
-  cases get? h.rt s <;> rfl
+  simp only [handleNotify_eq, hl, hs, hm, (ladder_spec n.hdrs).2.1, (ladder_spec n.hdrs).2.2]
+  cases get? h.rt s <;> simp
 
 /-- `handle_notify` for a request with invalid headers: nothing happens -/
 theorem handleNotify_bad (h : Handler) (n : Notify) (tick : Nat) (hk : hdrsOk n.hdrs = false) :
@@ -101,12 +103,13 @@ theorem handleNotify_bad (h : Handler) (n : Notify) (tick : Nat) (hk : hdrsOk n.
     intro e; rw [← hdrsOk_specStatus] at e; rw [hk] at e; cases e
   have hl := (ladder_spec n.hdrs).1
   rw [if_neg h200] at hl
-  simp [handleNotify, hl]
+  simp [handleNotify_eq, hl]
 
 end Upnp.C11
 
 namespace Upnp.C11
 open Upnp PyDict Upnp.C09 Upnp.C10
+variable [FloatOracle]
 
 /-! ### granted bookkeeping -/
 
@@ -140,7 +143,7 @@ theorem grantedSid_mem {js : JS} {i : Nat} {s : Str} (h : grantedSid js i = some
   simp only [beq_iff_eq] at h1
   rw [← h1]; exact h2
 
-theorem routed_mem {decls : List (List Decl)} {s : St} {js : JS} (inv : Inv decls s js) {sid : Str} {i : Nat}
+theorem routed_mem {decls : List (List Var)} {s : St} {js : JS} (inv : Inv decls s js) {sid : Str} {i : Nat}
     (h : get? s.h.rt sid = some i) : (i, sid) ∈ js.granted := by
   rw [inv.rt sid] at h
   simp only [Option.map_eq_some_iff] at h
@@ -150,14 +153,14 @@ theorem routed_mem {decls : List (List Decl)} {s : St} {js : JS} (inv : Inv decl
   simp only [beq_iff_eq] at h1
   rw [← h1]; exact h2
 
-theorem unrouted_not_granted {decls : List (List Decl)} {s : St} {js : JS} (inv : Inv decls s js) {sid : Str}
+theorem unrouted_not_granted {decls : List (List Var)} {s : St} {js : JS} (inv : Inv decls s js) {sid : Str}
     (h : get? s.h.rt sid = none) : ∀ j, grantedSid js j ≠ some sid := by
   intro j hj
   have hm := grantedSid_mem hj
   rw [inv.rt sid, find_snd inv.grantedSidNodup hm] at h
   cases h
 
-theorem routed_grantedSid {decls : List (List Decl)} {s : St} {js : JS} (inv : Inv decls s js) {sid : Str} {i : Nat}
+theorem routed_grantedSid {decls : List (List Var)} {s : St} {js : JS} (inv : Inv decls s js) {sid : Str} {i : Nat}
     (h : get? s.h.rt sid = some i) : ∀ j, grantedSid js j = some sid ↔ j = i := by
   intro j
   have hm := routed_mem inv h
@@ -199,17 +202,18 @@ theorem notifiesFor_seen (js : JS) (n : Notify) (k : Nat) :
       if grantedSid js k = n.hdrs.sid ∧ n.hdrs.sid.isSome then notifiesFor js k ++ [n] else notifiesFor js k :=
   filter_seen_aux (grantedSid js k) js.seen n
 
-theorem inv_notify (decls : List (List Decl)) (hd : ∀ ds ∈ decls, declsWF ds) (s : St) (js : JS)
-    (inv : Inv decls s js) (n : Notify) (tick : Nat) (hk : hdrsOk n.hdrs = true) (hb : bodyWF n.body = true) :
+theorem inv_notify (decls : List (List Var)) (hd : ∀ ds ∈ decls, declsWF ds) (s : St) (js : JS)
+    (inv : Inv decls s js) (n : Notify) (tick : Nat) (hk : hdrsOk n.hdrs = true) (hb : bodyWF n.body = true)
+    (hm : n.malformed = false) :
     Inv decls { s with h := (handleNotify s.h n tick).1 } { js with seen := js.seen ++ [n] }
     ∧ (handleNotify s.h n tick).2 = .status 200 := by
   obtain ⟨sid, hsid⟩ := hdrsOk_sid hk
-  rw [handleNotify_ok s.h n tick hk sid hsid]
-  have hseen : ∀ m ∈ js.seen ++ [n], hdrsOk m.hdrs = true ∧ bodyWF m.body = true := by
-    intro m hm
-    rcases List.mem_append.mp hm with h | h
+  rw [handleNotify_ok s.h n tick hk sid hsid hm]
+  have hseen : ∀ m ∈ js.seen ++ [n], hdrsOk m.hdrs = true ∧ bodyWF m.body = true ∧ m.malformed = false := by
+    intro m hmm
+    rcases List.mem_append.mp hmm with h | h
     · exact inv.seenWF m h
-    · simp only [List.mem_singleton] at h; subst h; exact ⟨hk, hb⟩
+    · simp only [List.mem_singleton] at h; subst h; exact ⟨hk, hb, hm⟩
   cases hr : get? s.h.rt sid with
   | none =>
     refine ⟨?_, rfl⟩
@@ -253,8 +257,11 @@ theorem inv_notify (decls : List (List Decl)) (hd : ∀ ds ∈ decls, declsWF ds
           simp only [h3, Option.map_some, Option.some.injEq] at h2
           subst h2
           have hv := inv.svcs.2 j ds sv0 h1 h3
-          have hds : declsWF (declsOf sv0) := by
-            rw [declsOf_of_inv hv.1]; exact hd ds (List.mem_of_getElem? h1)
+          have hds : declsWF sv0.vars := by
+            apply (declsWF_blank sv0.vars).mp
+            have := declsOf_of_inv hv.1
+            rw [declsOf] at this
+            rw [this]; exact (declsWF_blank ds).mpr (hd ds (List.mem_of_getElem? h1))
           rw [if_pos ⟨(hgr j).mpr rfl, rfl⟩, ideal_snoc, ← hv.1]
           exact ⟨valsOf_notifyChanged sv0 hds n.body hb tick, by simp [notifyChanged, hv.2]⟩
       · have : ¬ (grantedSid js j = some sid ∧ (some sid).isSome = true) := fun ⟨e', _⟩ => e ((hgr j).mp e')
@@ -266,16 +273,22 @@ end Upnp.C11
 
 namespace Upnp.C11
 open Upnp PyDict Upnp.C09 Upnp.C10
+variable [FloatOracle]
 
 /-! ### a subscribe call starts -/
 
-theorem inv_start (decls : List (List Decl)) (s : St) (js : JS) (inv : Inv decls s js) (svc : Nat) (t : Int)
-    (hsc : js.started.contains svc = false) :
+theorem inv_start (decls : List (List Var)) (s : St) (js : JS) (inv : Inv decls s js) (svc : Nat) (t : Int)
+    (hsc : (!js.pend.contains svc && (grantedSid js svc).isNone) = true) :
     contains s.pending svc = false
     ∧ Inv decls { s with pending := set s.pending svc t }
         { js with started := svc :: js.started, pend := svc :: js.pend } := by
-  have hns : svc ∉ js.started := by simpa using hsc
-  have hnp : svc ∉ js.pend := fun h => hns (inv.pendStarted svc h)
+  simp only [Bool.and_eq_true, Bool.not_eq_true', Option.isNone_iff_eq_none] at hsc
+  have hnp : svc ∉ js.pend := by simpa using hsc.1
+  have hng : ∀ p ∈ js.granted, p.1 ≠ svc := by
+    intro p hp e
+    have := find_fst inv.grantedSvcNodup (i := p.1) (s := p.2) hp
+    have hg : grantedSid js svc = some p.2 := by simp [grantedSid, ← e, this]
+    rw [hsc.2] at hg; cases hg
   have hc : contains s.pending svc = false := by
     unfold PyDict.contains; rw [inv.pend svc]; simpa using hnp
   refine ⟨hc, ?_⟩
@@ -295,7 +308,7 @@ theorem inv_start (decls : List (List Decl)) (s : St) (js : JS) (inv : Inv decls
     refine ⟨List.mem_cons_of_mem _ this.1, ?_⟩
     intro h
     rcases List.mem_cons.mp h with e | e
-    · exact hns (e ▸ this.1)
+    · exact hng p hp e
     · exact this.2 e
 
 /-! ### the SUBSCRIBE response arrives -/
@@ -305,8 +318,8 @@ theorem subscribeFinish_grant (rt : Routing) (svc : Nat) (t : Int) (x : Str) (th
     ∃ g, subscribeFinish rt svc t (.resp 200 (some x) th) = (set rt x svc, .sub x g) := by
   obtain ⟨g, _, hp⟩ := inScope_parse th t hs
   rcases hp with ⟨hk, rfl⟩ | hk
-  · exact ⟨g, by simp [subscribeFinish, hk]⟩
-  · exact ⟨g, by simp [subscribeFinish, hk]⟩
+  · exact ⟨g, by simp [subscribeFinish, guards_pinned.1, hk]⟩
+  · exact ⟨g, by simp [subscribeFinish, guards_pinned.1, hk]⟩
 
 /-- a response that grants nothing leaves the routing table alone and the call raises -/
 theorem subscribeFinish_nogrant (rt : Routing) (svc : Nat) (t : Int) (r : Reaction)
@@ -324,7 +337,7 @@ theorem subscribeFinish_nogrant (rt : Routing) (svc : Nat) (t : Int) (r : Reacti
     · exact ⟨.responseError status, by simp [subscribeFinish, h200]⟩
 
 theorem replay_spec (h : Handler) (sid : Str) (i : Nat) (hr : get? h.rt sid = some i) (items : List Notify)
-    (hitems : ∀ n ∈ items, hdrsOk n.hdrs = true ∧ n.hdrs.sid = some sid) (tick : Nat) :
+    (hitems : ∀ n ∈ items, hdrsOk n.hdrs = true ∧ n.hdrs.sid = some sid ∧ n.malformed = false) (tick : Nat) :
     replay h items tick =
       { h with svcs := modifyAt h.svcs i fun sv =>
           items.foldl (fun sv n => notifyChanged sv (changesOf n.body) tick) sv } := by
@@ -333,22 +346,43 @@ theorem replay_spec (h : Handler) (sid : Str) (i : Nat) (hr : get? h.rt sid = so
   | cons n r ih =>
     have hn := hitems n List.mem_cons_self
     simp only [replay, List.foldl_cons]
-    rw [handleNotify_ok h n tick hn.1 sid hn.2, hr]
+    rw [handleNotify_ok h n tick hn.1 sid hn.2.1 hn.2.2, hr]
     simp only
     have := ih { h with svcs := modifyAt h.svcs i fun sv => notifyChanged sv (changesOf n.body) tick } hr
       (fun m hm => hitems m (List.mem_cons_of_mem _ hm))
     simp only [replay] at this
     rw [this, modifyAt_modifyAt]
 
+/-- the replay as coded never leaves its loop early on well-formed items: it is the plain replay -/
+theorem replayE_eq (h : Handler) (sid : Str) (i : Nat) (hr : get? h.rt sid = some i) (items : List Notify)
+    (hitems : ∀ n ∈ items, hdrsOk n.hdrs = true ∧ n.hdrs.sid = some sid ∧ n.malformed = false) (tick : Nat) :
+    replayE h items tick = (replay h items tick, none) := by
+  induction items generalizing h with
+  | nil => rfl
+  | cons n r ih =>
+    have hn := hitems n List.mem_cons_self
+    simp only [replayE, replay, List.foldl_cons]
+    rw [handleNotify_ok h n tick hn.1 sid hn.2.1 hn.2.2, hr]
+    simp only
+    exact ih _ hr (fun m hm => hitems m (List.mem_cons_of_mem _ hm))
+
+theorem declsWF_notifyChanged (sv : Svc) (ch : PyDict Str Str) (tick : Nat) (h : declsWF sv.vars) :
+    declsWF (notifyChanged sv ch tick).vars := by
+  apply (declsWF_blank _).mp
+  have := notifyChanged_decls sv ch tick
+  simp only [declsOf] at this
+  rw [this]
+  exact (declsWF_blank _).mpr h
+
 theorem valsOf_foldl (items : List Notify) (hb : ∀ n ∈ items, bodyWF n.body = true) (sv : Svc)
-    (hds : declsWF (declsOf sv)) (tick : Nat) :
+    (hds : declsWF sv.vars) (tick : Nat) :
     valsOf (items.foldl (fun sv n => notifyChanged sv (changesOf n.body) tick) sv)
       = items.foldl (fun vs n => valsStep n.body vs) (valsOf sv) := by
   induction items generalizing sv with
   | nil => rfl
   | cons n r ih =>
     simp only [List.foldl_cons]
-    rw [ih (fun m hm => hb m (List.mem_cons_of_mem _ hm)) _ (by rw [notifyChanged_decls]; exact hds)]
+    rw [ih (fun m hm => hb m (List.mem_cons_of_mem _ hm)) _ (declsWF_notifyChanged sv _ tick hds)]
     rw [valsOf_notifyChanged sv hds n.body (hb n List.mem_cons_self) tick]
 
 theorem events_foldl (items : List Notify) (sv : Svc) (tick : Nat) :
@@ -374,8 +408,9 @@ end Upnp.C11
 
 namespace Upnp.C11
 open Upnp PyDict Upnp.C09 Upnp.C10
+variable [FloatOracle]
 
-theorem inv_respond_nogrant (decls : List (List Decl)) (s : St) (js : JS) (inv : Inv decls s js) (svc : Nat) :
+theorem inv_respond_nogrant (decls : List (List Var)) (s : St) (js : JS) (inv : Inv decls s js) (svc : Nat) :
     Inv decls { h := s.h, pending := erase s.pending svc } { js with pend := js.pend.filter (· != svc) } := by
   refine { inv with pendNodup := nodup_keys_erase _ _ inv.pendNodup,
                     pend := pend_erase s js inv.pendNodup inv.pend svc, pendStarted := ?_, grantedDone := ?_ }
@@ -404,7 +439,21 @@ theorem grantedSid_append_self (js js' : JS) (svc : Nat) (x : Str) (hg : js'.gra
     exact h (hps ▸ List.mem_map_of_mem (f := (·.1)) hp)
   simp [this]
 
-theorem inv_respond_grant (decls : List (List Decl)) (hd : ∀ ds ∈ decls, declsWF ds) (s : St) (js : JS)
+theorem backlog_items_ok (decls : List (List Var)) (s : St) (js : JS) (inv : Inv decls s js) (x : Str)
+    (hx : x ∉ js.granted.map (·.2)) :
+    ∀ n ∈ (get? s.h.backlog x).getD [], hdrsOk n.hdrs = true ∧ n.hdrs.sid = some x ∧ n.malformed = false := by
+  have hfind : js.granted.find? (·.2 == x) = none := by
+    rw [List.find?_eq_none]
+    intro p hp' hps
+    simp only [beq_iff_eq] at hps
+    exact hx (hps ▸ List.mem_map_of_mem (f := (·.2)) hp')
+  have hunr : get? s.h.rt x = none := by rw [inv.rt x, hfind]; rfl
+  intro n hn
+  rw [inv.backlog x hunr] at hn
+  obtain ⟨hm, hs⟩ := List.mem_filter.mp hn
+  exact ⟨(inv.seenWF n hm).1, by simpa using hs, (inv.seenWF n hm).2.2⟩
+
+theorem inv_respond_grant (decls : List (List Var)) (hd : ∀ ds ∈ decls, declsWF ds) (s : St) (js : JS)
     (inv : Inv decls s js) (svc : Nat) (hp : svc ∈ js.pend) (x : Str) (hx : x ∉ js.granted.map (·.2)) (tick : Nat) :
     let h1 := replay { s.h with rt := set s.h.rt x svc } ((get? s.h.backlog x).getD []) tick
     Inv decls { h := { h1 with backlog := erase h1.backlog x }, pending := erase s.pending svc }
@@ -427,15 +476,15 @@ theorem inv_respond_grant (decls : List (List Decl)) (hd : ∀ ds ∈ decls, dec
     | some y => exact absurd (List.mem_map_of_mem (f := (·.1)) (grantedSid_mem hg)) hsvc
   -- the backlog of the SID is what was seen for it
   have hitems : (get? s.h.backlog x).getD [] = js.seen.filter (fun n => n.hdrs.sid == some x) := inv.backlog x hunr
-  have hall : ∀ n ∈ (get? s.h.backlog x).getD [], hdrsOk n.hdrs = true ∧ n.hdrs.sid = some x := by
+  have hall : ∀ n ∈ (get? s.h.backlog x).getD [], hdrsOk n.hdrs = true ∧ n.hdrs.sid = some x ∧ n.malformed = false := by
     intro n hn
     rw [hitems] at hn
     obtain ⟨hm, hs⟩ := List.mem_filter.mp hn
-    exact ⟨(inv.seenWF n hm).1, by simpa using hs⟩
+    exact ⟨(inv.seenWF n hm).1, by simpa using hs, (inv.seenWF n hm).2.2⟩
   have hbw : ∀ n ∈ (get? s.h.backlog x).getD [], bodyWF n.body = true := by
     intro n hn
     rw [hitems] at hn
-    exact (inv.seenWF n (List.mem_filter.mp hn).1).2
+    exact (inv.seenWF n (List.mem_filter.mp hn).1).2.1
   have hrep : h1 = (⟨PyDict.set s.h.rt x svc, s.h.backlog,
       modifyAt s.h.svcs svc (fun sv =>
         ((get? s.h.backlog x).getD []).foldl (fun sv n => notifyChanged sv (changesOf n.body) tick) sv)⟩ : Handler) :=
@@ -489,8 +538,11 @@ theorem inv_respond_grant (decls : List (List Decl)) (hd : ∀ ds ∈ decls, dec
         simp only [h3, Option.map_some, Option.some.injEq] at hj2
         subst hj2
         have hv := inv.svcs.2 j ds sv0 hj1 h3
-        have hds : declsWF (declsOf sv0) := by
-          rw [declsOf_of_inv hv.1]; exact hd ds (List.mem_of_getElem? hj1)
+        have hds : declsWF sv0.vars := by
+          apply (declsWF_blank sv0.vars).mp
+          have := declsOf_of_inv hv.1
+          rw [declsOf] at this
+          rw [this]; exact (declsWF_blank ds).mpr (hd ds (List.mem_of_getElem? hj1))
         rw [valsOf_foldl _ hbw sv0 hds tick, hv.1, events_foldl, hv.2]
         have hgj := grantedSid_append_self js
           { js with pend := js.pend.filter (· != j), granted := js.granted ++ [(j, x)] } j x rfl hsvc
